@@ -77,6 +77,7 @@ func runC02(p *core.Prog, r *core.Report) {
 	c02R7(p, r)
 	c02R8(p, r)
 	c02R9(p, r)
+	c02R10(p, r)
 }
 
 // rootedAt reports whether address a is (a field/element chain of) field `field` of receiver recv.
@@ -1030,5 +1031,62 @@ func c02R9(p *core.Prog, r *core.Report) {
 	}
 	if n == 0 {
 		r.MissingAnchor(rule, "calls of manifest.WithRaw outside types/manifest")
+	}
+}
+
+// c02R10: a body the constructor refused (its digest does not match the expected one) is not offered
+// to the constructor again with fewer expectations.
+func c02R10(p *core.Prog, r *core.Report) {
+	const rule = "C02.R10"
+	r.Rule(rule, "a refused body stays refused: from the error edge of a manifest.New that was given raw bytes, no other manifest.New with the same raw bytes is reachable (dropping the digest header or the reference digest and building the manifest anyway accepts content that does not hash to what was announced)", 3)
+	isNew := func(f *types.Func) bool { return core.IsModFunc(f, "types/manifest", "New") }
+	rawOf := func(c *ssa.Call) ssa.Value {
+		if len(c.Call.Args) == 0 {
+			return nil
+		}
+		for _, oc := range optCalls(c.Call.Args[0]) {
+			if cal := core.Callee(oc); cal != nil && cal.Name() == "WithRaw" && len(oc.Call.Args) == 1 {
+				return oc.Call.Args[0]
+			}
+		}
+		return nil
+	}
+	n := 0
+	for _, fn := range p.ModFuncs {
+		if len(fn.Blocks) == 0 {
+			continue
+		}
+		if pk := core.FuncPkg(fn); pk == nil || pk.Path() == modPath("types/manifest") {
+			continue
+		}
+		lab := labeler{}
+		for _, c := range core.CallsTo(fn, isNew) {
+			call, ok := c.(*ssa.Call)
+			if !ok {
+				continue
+			}
+			raw := rawOf(call)
+			if raw == nil {
+				continue
+			}
+			n++
+			label := lab.next("manifest.New(raw)")
+			again := ""
+			for _, e := range errEdgesOf(fn, call) {
+				for in := range (core.Reach{StopEdge: func(from, to *ssa.BasicBlock) bool { return to.Dominates(from) }}).FromEdge(e[0], e[1]) {
+					c2, ok := in.(*ssa.Call)
+					if !ok || c2 == call || !isNew(core.Callee(c2)) {
+						continue
+					}
+					if r2 := rawOf(c2); r2 != nil && (r2 == raw || (accessPath(r2) != "" && accessPath(r2) == accessPath(raw))) {
+						again = p.Pos(c2.Pos())
+					}
+				}
+			}
+			r.Check(again == "", rule, p.FuncName(fn), label, p.Pos(call.Pos()), "after the constructor refused these bytes they are handed to it again at "+again+": whatever check made it refuse them (digest header, reference digest, descriptor) is gone the second time")
+		}
+	}
+	if n == 0 {
+		r.MissingAnchor(rule, "manifest.New calls with WithRaw")
 	}
 }
